@@ -398,7 +398,8 @@ def run(ctx):
     devp = setlit(DEV_PROFILES) if quick else setlit(ALL_PROFILES)
     side = [  # (cfg, label, expected violated invariant or None)
         (derive_cfg(ctx, base_leaf, "fixed-leaf.cfg", Impl='"fixed"', Strict="TRUE", EmitOn="FALSE", Profiles=devp), "repaired procedure, leaves: strictly sound", None),
-        (derive_cfg(ctx, base_pair, "fixed-pair.cfg", Impl='"fixed"', Strict="TRUE", EmitOn="FALSE"), "repaired procedure, compounds: strictly sound", None),
+        (derive_cfg(ctx, base_pair, "fixed-pair.cfg", Impl='"fixed"', Strict="TRUE", EmitOn="FALSE", **({"Profiles": setlit(["f64.zeros"])} if quick else {})),
+         "repaired procedure, compounds: strictly sound", None),
         (derive_cfg(ctx, base_leaf, "strict-leaf.cfg", Strict="TRUE", EmitOn="FALSE", Profiles=devp), "as-built without the deviation escape: counterexample expected", "ANY"),
     ]
     if not quick:
